@@ -104,7 +104,7 @@ Definition known_vias : list bytes :=
   [B ""; B "int64"; B "string"; B "MarshalJSON:ID"; B "MarshalJSON:IRI"; B "MarshalJSON:ActivityVocabularyType"; B "MarshalJSON:MimeType";
    B "MarshalJSON:*Endpoints"; B "MarshalJSON:PublicKey"; B "MarshalJSON:Source"; B "json.Marshal"].
 Definition known_other_guards : list bytes :=
-  [B "len(a.PublicKey.PublicKeyPem)+len(a.PublicKey.ID) > 0"].
+  [pubkey_guard_src].
 
 Definition wstmt_recognised (s : wstmt) : bool :=
   match s with
@@ -278,8 +278,11 @@ Definition known_getters : list bytes :=
    B "JSONGetItems"; B "JSONGetTime"; B "JSONGetDuration"; B "JSONGetInt"; B "JSONGetFloat"; B "JSONGetBoolean";
    B "GetAPSource"; B "JSONGetActorEndpoints"; B "JSONGetPublicKey"].
 Definition known_read_guards : list bytes :=
-  [B ""; B "x != 0"; B "len(x) > 0"; B "x != nil;GetLink"; B "len(x) > 0;UnmarshalJSON"].
-Definition known_convs : list bytes := [B ""; B "uint"; B "string"; B "ActivityVocabularyType"].
+  [B ""; B "x != 0"; B "len(x) > 0"; B "x != nil;GetLink"].
+(* "len(x) > 0;UnmarshalJSON" - the decoded bytes of source.mediaType handed to MimeType.UnmarshalJSON, which strips the
+   quotes the media type itself begins or ends with - is no longer a recognised shape: the decoder model reads the string as it
+   is, which is what the repaired GetAPSource does (conversion MimeType) *)
+Definition known_convs : list bytes := [B ""; B "uint"; B "string"; B "ActivityVocabularyType"; B "MimeType"].
 
 Definition tables_recognised_r (jr_tables : list (bytes * list rstmt)) : bool :=
   forallb (fun t => forallb (fun s => match s with
